@@ -1,6 +1,7 @@
 package main
 
 import (
+	"strconv"
 	"bufio"
 	"os"
 	"fmt"
@@ -97,6 +98,9 @@ func (s *Solver) CheckPC(pc []*Term, extra ...*Term) Result {
 	sb.WriteString("(push 1)\n")
 	for _, r := range refs {
 		fmt.Fprintf(&sb, "(assert %s)\n", r)
+	}
+	if injectErrAt > 0 && s.Queries == injectErrAt {
+		sb.WriteString("(assert undeclared_symbol_for_selftest)\n") // self-test of the error path (SYMGO_INJECTERR=n)
 	}
 	sb.WriteString("(check-sat)\n")
 	s.send(sb.String())
@@ -467,3 +471,5 @@ func readResultFrom(out *bufio.Reader) Result {
 const errResult Result = 99
 
 var lastSolverErr string
+
+var injectErrAt = func() int { n, _ := strconv.Atoi(os.Getenv("SYMGO_INJECTERR")); return n }()
